@@ -23,15 +23,12 @@ func (SimpleHashScheme) Block(h tmconsensus.Header) ([]byte, error) {
 
 	// Serialize the previous commit proof.
 	// First iterate over the voted blocks in order.
+	// Sort by the raw block hash, which is also the map key for looking up the signatures;
+	// the formatted key is only for the serialized form.
+	// (Sorting raw or hex-formatted hashes gives the same order, with the nil hash first.)
 	prevCommitBlocks := make([]string, 0, len(h.PrevCommitProof.Proofs))
 	for bh := range h.PrevCommitProof.Proofs {
-		var blockKey string
-		if bh == "" {
-			blockKey = "<nil>"
-		} else {
-			blockKey = fmt.Sprintf("%x", bh)
-		}
-		prevCommitBlocks = append(prevCommitBlocks, blockKey)
+		prevCommitBlocks = append(prevCommitBlocks, bh)
 	}
 	sort.Strings(prevCommitBlocks)
 
@@ -39,7 +36,11 @@ func (SimpleHashScheme) Block(h tmconsensus.Header) ([]byte, error) {
 		if i > 0 {
 			buf.WriteString(", ")
 		}
-		buf.WriteString(blockHash)
+		if blockHash == "" {
+			buf.WriteString("<nil>")
+		} else {
+			fmt.Fprintf(&buf, "%x", blockHash)
+		}
 		buf.WriteString(" => (")
 		sigs := h.PrevCommitProof.Proofs[blockHash]
 
